@@ -1,0 +1,17 @@
+//go:build verif
+
+package collection
+
+import (
+	"time"
+
+	"github.com/gotid/god/lib/timex"
+)
+
+// VerifNewTimingWheelWithTicker exposes newTimingWheelWithClock to monitors in
+// other packages (verification builds only), so a wheel can be driven tick by
+// tick through a caller-supplied ticker.
+func VerifNewTimingWheelWithTicker(interval time.Duration, numSlots int, execute Execute,
+	ticker timex.Ticker) (*TimingWheel, error) {
+	return newTimingWheelWithClock(interval, numSlots, execute, ticker)
+}
